@@ -163,7 +163,7 @@ theorem C15_closed (tops : List BOp) (o oc : Onto) (hrun : runB tops {} = some o
   obtain ⟨hpre, _⟩ := preInv_run tops {} o preInv_nil hrun
   obtain ⟨oc', hc', _, hupd, hex, _⟩ := C01_connect o hpre hac
   rw [hc] at hc'; cases hc'
-  obtain ⟨hinv, rank, hcl, hf⟩ := connected_annInv tops o oc hrun hac hc
+  obtain ⟨hinv, ⟨rank, hcl, hf⟩, _, _⟩ := connected_annInv tops o oc hrun hac hc
   have H := (C02_history _ _ rank hcl aops oc hinv hf).1
   -- terms of the final builder differ from `oc` only in annotation fields
   have hall : ∀ j, allOf (runA aops oc).terms j = allOf oc.terms j := fun j => H.ancF j
